@@ -31,3 +31,77 @@ def check_C15(run):
 
 
 CHECKS = {"C15": check_C15}
+
+
+SQL_ASSUME = [
+    "TLC 1.8.0 and the CommunityModules Json module evaluate the specification correctly",
+    "PostgreSQL's reading of the text is pg_query_go v4.2.3 (PostgreSQL 15 grammar); its AST is projected structurally (harness/pgsensor.go), "
+    "anything outside the listed node kinds becomes 'other' and is rejected by Sql!InFragment",
+    "SQL semantics (spec/Sql.tla): comparison, inclusive BETWEEN, IN, SIMILAR TO with % _ and backslash escape, AND/OR/NOT on non-NULL values, "
+    "numbers compared numerically (scaled by 10^6), strings bytewise (C collation) - our reading of the PostgreSQL manual; no server in the sandbox",
+]
+
+ATOM_KINDS = ["feq", "feqint", "fgt", "fle", "frange", "flist"]
+
+
+def sql_structure(run, prop):
+    """Structure level: generated Boolean trees over known-good leaves, both renderings read by PostgreSQL's parser."""
+    if run.tier == "quick":
+        cases, g = stage_gen_trees(run, ["feq", "frange"], 2, ws=0, suffix=False)
+        res, _, _ = stage_groups(run, cases, sql=True)
+        stage_judge_trees(run, res, prop, cases)
+        cases, g = stage_gen_trees(run, ATOM_KINDS, 3, ws=0, sample=1500, suffix=False, name="gen_deep")
+        res, _, _ = stage_groups(run, cases, sql=True, name="parse_deep")
+        stage_judge_trees(run, res, prop, cases, name="judge_deep")
+    else:
+        cases, g = stage_gen_trees(run, ["feq", "feqint", "frange", "flist"], 2, ws=0, suffix=False)
+        res, _, _ = stage_groups(run, cases, sql=True)
+        stage_judge_trees(run, res, prop, cases)
+        for depth, n in [(3, 20000), (5, 6000)]:
+            cases, g = stage_gen_trees(run, ATOM_KINDS, depth, ws=0, sample=n, suffix=False, name="gen_deep%d" % depth)
+            res, _, _ = stage_groups(run, cases, sql=True, name="parse_deep%d" % depth)
+            stage_judge_trees(run, res, prop, cases, name="judge_deep%d" % depth)
+
+
+def check_C03(run):
+    run.assumptions += SQL_ASSUME
+    run.assumptions.append("leaf level: every leaf form over typed value pools (ints, decimals incl. >2 decimals, strings incl. quotes/commas/spaces, "
+                           "wildcard patterns; every bracket combination and open end), probe rows hit every region cut out by the pool constants; "
+                           "structure level: Boolean trees over known-good leaves, one probe value per region of each leaf's column; regexps excluded")
+    cases, g = stage_gen_sql(run)
+    res = stage_sql_cases(run, cases)
+    stage_judge_sql(run, res, "C03")
+    sql_structure(run, "C03")
+    run.exhaustive = True
+    run.notes.append("leaf cases enumerated exhaustively over the pools; trees exhaustive to depth 2, sampled deeper (seed %d)" % run.seed)
+
+
+def check_C04(run):
+    run.assumptions += SQL_ASSUME
+    cases, g = stage_gen_sql(run)
+    res = stage_sql_cases(run, cases)
+    stage_judge_sql(run, res, "C04")
+    cases, g = stage_gen_sql(run, module="GenAdv", name="gen_adv")
+    res = stage_sql_cases(run, cases, name="sql_adv")
+    stage_judge_sql(run, res, "C04", name="judge_sql_adv")
+    sql_structure(run, "C04")
+    run.exhaustive = True
+    run.notes.append("leaf cases (with a same-kind value substitution each), adversarial values, and generated trees (seed %d)" % run.seed)
+
+
+def check_C02(run):
+    run.assumptions += SQL_ASSUME
+    run.assumptions.append("adversarial pool: quotes, backslashes, statement separators, comment openers, NUL, invalid UTF-8, newline, $1, ?, "
+                           "E'..' and U&'..' prefixes, NaN/Inf/hex/out-of-range number spellings, a 65-byte field name; each as value (escaped and "
+                           "quoted) in every leaf form, as field name, and as default-field term")
+    cases, g = stage_gen_sql(run, module="GenAdv", name="gen_adv")
+    res = stage_sql_cases(run, cases, name="sql_adv")
+    stage_judge_sql(run, res, "C02", name="judge_sql_adv")
+    cases, g = stage_gen_sql(run)
+    res = stage_sql_cases(run, cases)
+    stage_judge_sql(run, res, "C02")
+    run.exhaustive = True
+    run.notes.append("every adversarial string x every leaf form / position, both renderers")
+
+
+CHECKS.update({"C02": check_C02, "C03": check_C03, "C04": check_C04})
